@@ -83,11 +83,16 @@ def r15_1(ctx):
                 "`*:3` compares a number with the string '*' and raises TypeError)",
                 d[0].lineno,
             )
-    ctx.floor("R15.1", n, 2, "functions destructuring a message set")
+    ctx.floor("R15.1", n, 1, "functions destructuring a message set")
+
+
+P = None
 
 
 def r15_3(ctx):
+    global P
     p = ctx.p
+    P = p
     sites = []
     for fi in p.functions.values():
         for c in calls_in(fi.node):
@@ -115,6 +120,21 @@ def _seqmax_ok(fi, c, smax, uid_txt):
         return False, "no seq_max argument"
     st = norm(smax)
     uidpath = uid_txt not in ("False",)
+    if isinstance(smax, ast.Name) and smax.id in [a.arg for a in fi.node.args.args] and fi.module == "search":
+        # parameter of the search helper: what do its callers pass?
+        ok_callers = []
+        from ..astutil import calls_in as _ci
+        for m, mfi in P.cls("IMAPSearch").methods.items():
+            for c2 in _ci(mfi.node):
+                if call_name(c2) == fi.name and c2.args:
+                    a = norm(c2.args[0])
+                    want = {"_match_uid": "self.ctx.uid_max", "_match_message_set": "self.ctx.seq_max"}.get(m)
+                    if want is None or a != want:
+                        return False, f"{m} passes {a}"
+                    ok_callers.append(f"{m}: {a}")
+        if ok_callers:
+            return True, "search helper: " + "; ".join(ok_callers) + " (context maxima checked by C14 R14.4)"
+        return False, "no caller found"
     if isinstance(smax, ast.Name):
         ds = _defs(fi, smax.id)
         vals = [norm(d.value) for d in ds]
